@@ -16,7 +16,7 @@ RULE = ("block size 0 x {READ/WRITE(10,12,16), WRITE SAME(10,16), ATA PASS-THROU
         "tuples with at most 1 deviation, through the constructor and through the facade on both transports, the baseline tuple also after every sequence of 1-2 other calls through the same facade (INQUIRY, TEST UNIT READY, READ CAPACITY 10/16 answered with a real block length, MODE SENSE, REPORT LUNS, block size set and reset, an earlier refused call, a second facade with a block size over the same device object); all 256 opcode values into "
         "init_cdb and three constructors; PERSISTENT RESERVE IN service actions -1..40 through the facade; EXTENDED COPY LID1/LID4 with each "
         "unknown key in CSCD and segment descriptors, unknown / valid-unimplemented / implemented type codes, LU ID TYPE 0..3, unknown device "
-        "types, codes given by name in the wrong field (before and after a valid use of the same names); TransportIDs over protocols x format flag x session id; opcode refusal (init_cdb, marshall_cdb, constructor) racing with a second thread that builds a valid TEST UNIT READY / READ(10) / READ(16): all schedules with at most 2 preemptions at every source line of the library. Every case also states whether it must be accepted, so that refusing "
+        "types (as integers and as numeric text), codes given by name in the wrong field (before and after a valid use of the same names); TransportIDs over protocols x format flag x session id; opcode refusal (init_cdb, marshall_cdb, constructor) racing with a second thread that builds a valid TEST UNIT READY / READ(10) / READ(16): all schedules with at most 2 preemptions at every source line of the library. Every case also states whether it must be accepted, so that refusing "
         "valid input is reported too. Non-trivial = the request is invalid; distinct = distinct (kind, case).")
 ASSUMPTIONS = [
     "the 'specific error' is identified by exception class name (the metaclass mints MissingBlocksizeException/OpcodeException per class): MissingBlocksizeException, OpcodeException, ValueError; NotImplementedError is accepted only for descriptor type codes the standard defines but the library documents as not implemented",
@@ -281,6 +281,17 @@ def run_case(case, obs=None):
         elif what == "lu_id_type":
             tgt["lu_id_type"] = arg
             expect = None if arg == 0 else ["ValueError"]
+        elif what == "device_type" and isinstance(arg, str):
+            # a code written as numeric text ("0x02", "2"): for a code the class does not accept the request is refused like the
+            # integer is; text for an accepted code may be taken or refused
+            tgt["peripheral_device_type"] = arg
+            try:
+                n = int(arg, 0)
+            except ValueError:
+                n = int(arg.strip() or "0", 10)
+            if n in (0x00, 0x01, 0x03, 0x04, 0x05, 0x07, 0x0E):
+                return []
+            expect = ["ValueError", "KeyError", "TypeError"]
         elif what == "device_type":
             tgt["peripheral_device_type"] = arg
             expect = None if arg in (0x00, 0x01, 0x03, 0x05, 0x0E) or (ver == 4 and arg in (0x04, 0x07)) else ["ValueError"]
@@ -466,6 +477,8 @@ def run_partition(part, tier, seed):
                 do(["xcopy", ver, tr, "lu_id_type", v], nontrivial=v != 0)
             for v in range(32):
                 do(["xcopy", ver, tr, "device_type", v])
+            for txt in ("0x02", "2", "0b10", "0o2", "12", "0x1f", "0x1F", "31", "0x06", "255", "0x100", " 2", "0x0", "0x05"):
+                do(["xcopy", ver, tr, "device_type", txt])
             e4 = "Identification descriptor target descriptor" if ver == 4 else "Identification Descriptor CSCD descriptor"
             for warm in (0, 1):
                 for field in ("device_type", "target_code", "segment_code"):
